@@ -160,6 +160,16 @@ Definition shift_op (o : vop) : vop :=
 Definition shift_vout (o : vout) : vout :=
   match o with VrPoll r pk w a => VrPoll r (map shift_packet pk) w a | x => x end.
 
+(* the construction parameters of the relabelled run *)
+Definition shift_config (c : vconfig) : vconfig :=
+  {| vc_incoming := vc_incoming c; vc_ipv4 := vc_ipv4 c; vc_link_mtu := vc_link_mtu c;
+     vc_rx_buf := vc_rx_buf c; vc_tx_init := vc_tx_init c; vc_tx_max := vc_tx_max c;
+     vc_nagle := vc_nagle c; vc_max_retx := vc_max_retx c; vc_inactivity := vc_inactivity c;
+     vc_wait_last_ack := vc_wait_last_ack c; vc_mtu_probe_max_retx := vc_mtu_probe_max_retx c;
+     vc_isn := sh16 da (vc_isn c); vc_remote_seq := sh16 db (vc_remote_seq c);
+     vc_remote_conn_id := sh16 dc (vc_remote_conn_id c); vc_remote_wnd := vc_remote_wnd c;
+     vc_remote_ts := vc_remote_ts c; vc_syn_sent := vc_syn_sent c; vc_now0 := vc_now0 c |}.
+
 Definition shift_fstep (st : fstep) : fstep :=
   {| fs_now := fs_now st; fs_pre := shift_fp da db (fs_pre st);
      fs_event := shift_event da db (fs_event st);
